@@ -59,8 +59,9 @@ StepPos(x, st) ==
 ChildAt(x, p) == IF x.t = TList THEN x.v[p] ELSE x.v[p][2]
 
 RECURSIVE PathOK(_, _, _), NodeAt(_, _, _)
-PathOK(x, path, d) == \/ d > Len(path)
-                      \/ \E p \in {StepPos(x, path[d])} : p > 0 /\ PathOK(ChildAt(x, p), path, d + 1)
+\* (IF, not \/: inside an action TLC evaluates both sides of a disjunction)
+PathOK(x, path, d) == IF d > Len(path) THEN TRUE
+                      ELSE \E p \in {StepPos(x, path[d])} : p > 0 /\ PathOK(ChildAt(x, p), path, d + 1)
 NodeAt(x, path, d) == IF d > Len(path) THEN x
                       ELSE NodeAt(ChildAt(x, StepPos(x, path[d])), path, d + 1)
 
@@ -98,7 +99,7 @@ OpOK(x, o) ==
           [] o.op = "NewList"   -> isMap /\ Has_(o, "k") /\ KeyFits(x, o.k)
           [] o.op = "PutAll"    -> x.t = TMap /\ Has_(o, "v") /\ IsValue(o.v) /\ o.v.t = TMap
           [] o.op = "Clear"     -> ~leaf
-          [] o.op = "Read"      -> Has_(o, "v") /\ IsValue(o.v) /\ o.v.t = x.t /\ (leaf \/ x.v = <<>>)
+          [] o.op = "Read"      -> Has_(o, "v") /\ IsValue(o.v) /\ o.v.t = x.t /\ (IF leaf THEN TRUE ELSE x.v = <<>>)
           [] o.op = "SetVal"    -> leaf /\ Has_(o, "v") /\ IsValue(o.v) /\ o.v.t = x.t
           [] o.op = "SetElem"   -> leaf /\ Has_(o, "i") /\ Has_(o, "x") /\ ElemOK(x.t, o.x)
                                    /\ x.t \in {TBlob, TIP4} \cup ArrayCodes /\ o.i \in 1..Len(x.v)
